@@ -207,6 +207,7 @@ type c20ShutCase struct {
 	SecondAtMs      int    `json:"second_signal_at_ms,omitempty"`          // default 300
 	RejectFirstPost bool   `json:"first_response_post_rejected,omitempty"` // the proxy answers the first upload attempt of the in-flight request with 503
 	Shim            bool   `json:"shim_enabled,omitempty"`                 // the agent runs with --shim-path/--shim-websockets
+	SlowStartMs     int    `json:"slow_start_ms,omitempty"`                // the agent's main goroutine is held up for this long where it registers its signal handler (hook utils.signals.install): a start-up schedule of a loaded machine
 	Health          bool   `json:"health_checks_enabled,omitempty"`        // the agent also runs health checks (1 s interval, threshold 2) against a backend that always passes them
 }
 
@@ -370,7 +371,14 @@ func c20Shutdown(r *core.Run, agentBin string, md *fakes.Metadata, c c20ShutCase
 			return false
 		}
 	}
-	agent, err := startAgent(r, agentBin, "agent-"+c.Name, md, px.URL(), backend.Addr(), "b20-"+c.Name, args...)
+	var agent *core.Proc
+	if c.SlowStartMs > 0 {
+		full := append([]string{"--proxy=" + px.URL(), "--host=" + backend.Addr(), "--backend=b20-" + c.Name, "--disable-gce-vm-header=true"}, args...)
+		env := append(md.AgentEnv(r.WorkDir), fmt.Sprintf("VERIF_HOOK_DELAYS=utils.signals.install=%dms", c.SlowStartMs))
+		agent, err = r.StartProc("agent-"+c.Name, agentBin, full, env...)
+	} else {
+		agent, err = startAgent(r, agentBin, "agent-"+c.Name, md, px.URL(), backend.Addr(), "b20-"+c.Name, args...)
+	}
 	if err != nil {
 		r.Broken(err.Error())
 		return
@@ -510,6 +518,9 @@ func c20Shutdown(r *core.Run, agentBin string, md *fakes.Metadata, c c20ShutCase
 	}
 	if c.RejectFirstPost {
 		cls += "|first-post-rejected"
+	}
+	if c.SlowStartMs > 0 {
+		cls += "|signal-soon-after-a-slow-start"
 	}
 	if !confirm {
 		r.Case(cls)
@@ -686,6 +697,10 @@ func C20(r *core.Run) {
 	scs = append(scs, c20ShutCase{Name: fmt.Sprintf("s%d", len(scs)), Signal: "INT", GraceS: 3, Phase: "idle", Finish: "inside", FinishS: 1, Second: "TERM", SecondAtMs: 2500})
 	// the proxy rejects the first upload attempt of the in-flight response (a transient 503): the retry must still happen during the period
 	scs = append(scs, c20ShutCase{Name: fmt.Sprintf("s%d", len(scs)), Signal: "INT", GraceS: 4, Phase: "at-backend", Finish: "inside", FinishS: 1, RejectFirstPost: true})
+	// the signal arrives as soon as the agent polls, on a machine so busy that the agent's main goroutine needs 1.5 s from
+	// starting its polling loop to its next statement: an agent that polls (and forwards) is an agent that shuts down gracefully
+	scs = append(scs, c20ShutCase{Name: fmt.Sprintf("s%d", len(scs)), Signal: "TERM", GraceS: 2, Phase: "idle", Finish: "inside", FinishS: 1, SlowStartMs: 1500},
+		c20ShutCase{Name: fmt.Sprintf("s%d", len(scs)+1), Signal: "INT", GraceS: 3, Phase: "at-backend", Finish: "inside", FinishS: 1, SlowStartMs: 1500})
 	// a backend that stays busy far beyond the period (longer than the progress bound): the process still exits when the period ends
 	scs = append(scs, c20ShutCase{Name: fmt.Sprintf("s%d", len(scs)), Signal: "TERM", GraceS: 2, Phase: "at-backend", Finish: "outside", FinishS: 16})
 	// a period that is not a whole number of seconds, with the backend finishing in its last second; and a second signal during the period
